@@ -238,3 +238,19 @@ def run(ctx):
             if cal.rsplit('::', 1)[-1] in COLL and 'Stream' in cal:
                 ctx.check(R6, g.path.rsplit('::', 1)[-1] in COLL and 'Stream' in g.path, 'collector-caller:' + g.path,
                           '%s materialises a whole stream with %s: its memory grows with the number of keys (only the collectors themselves may do that, on the caller\'s request)' % (g.path, cal.rsplit('::', 1)[-1]), fn=g, at=t.get('span'))
+    # the CLI opens FST files by mapping them: a loader that reads the file into a Vec first costs heap proportional to the file before
+    # the first key is looked at
+    if b is not None:
+        R7 = ctx.rule('R14.7', 'fst-bin: FST files are memory-mapped, not read into the heap', floor=1)
+        n7 = 0
+        for g in b.fn_list:
+            if g.from_expansion:
+                continue
+            cs7 = [(g.callee(t) or g.callee_decl(t) or '') for _, t in g.calls()]
+            if not any(c.endswith(('Fst::<D>::new', 'Map::<D>::new', 'Set::<D>::new')) for c in cs7):
+                continue
+            n7 += 1
+            slurp = [c for c in cs7 if c in ('std::fs::read',) or c.rsplit('::', 1)[-1] in ('read_to_end', 'read_to_string') or c.endswith('fs::read')]
+            ctx.check(R7, not slurp, 'loader:' + g.path, '%s reads the file into memory (%s) before opening it as an FST: the heap then holds the whole file' % (g.path, sorted({c.rsplit('::', 1)[-1] for c in slurp})), fn=g)
+        if n7 == 0:
+            ctx.undecided(R7, 'loader', 'no CLI function opening an FST found')
